@@ -1,6 +1,6 @@
 (* C16 - prelude functions and macros compute what their documentation says.
    Only statements; proofs in Eval/PreludeProofs.v. *)
-From PL Require Import Eval.EvalRules Eval.PreludeState Eval.PreludeProofs.
+From PL Require Import Eval.EvalRules Eval.PreludeState Eval.PreludeProofs Eval.CatchProofs.
 From Coq Require Import String.
 Local Open Scope string_scope.
 Local Open Scope list_scope.
@@ -39,3 +39,18 @@ Print Assumptions C16_catch_all_expansion.
 Theorem C16_catch_expansion : forall K B, macro_expands_within 5 (s "catch") [K; B] (catch_clause K B).
 Proof. exact catch_expansion. Qed.
 Print Assumptions C16_catch_expansion.
+
+(* get-property-safe, through which every catch clause reads the kind of the trapped signal: for EVERY
+   key and EVERY value in the place of the property list it returns what `.` returns, and nil whenever
+   `.` signals (not a list, not a property list, odd length, key not a symbol) *)
+Theorem C16_get_property_safe_value : forall key pl v, dot_res pl key = ROk v -> gps_statement key pl v.
+Proof. exact get_property_safe_value. Qed.
+Print Assumptions C16_get_property_safe_value.
+
+Theorem C16_get_property_safe_signal : forall key pl sg, dot_res pl key = RSig sg -> gps_statement key pl nil_value.
+Proof. exact get_property_safe_signal. Qed.
+Print Assumptions C16_get_property_safe_signal.
+
+Theorem C16_dot_is_the_primitive : forall f st pl key env d, call_native (S f) st (s ".") [pl; key] env d = (st, dot_res pl key).
+Proof. exact dot_call. Qed.
+Print Assumptions C16_dot_is_the_primitive.
